@@ -59,5 +59,10 @@ Spec == Init /\ [][Next]_vars
 (* a property of the meaning itself: swapping the roles of trial and test expressions transposes the tensor *)
 Swap(f) == [n \in 1..Len(f) |-> [k |-> f[n].k, eu |-> f[n].ev, ev |-> f[n].eu]]
 Duality == \A a, i, b, j \in 1..fm.dim : Tensor(fm.dim, Swap(fm.form))[a][i][b][j] = fm.tensor[b][j][a][i]
+(* a form is linear in its weights: every weight multiplied by k gives the coefficient tensor multiplied by k - whatever the   *)
+(* magnitude (a diffusivity of 1e-9 m2/s is as good a coefficient as one of order one).  TLC: k = 2, 1/2; the harness integrates *)
+(* every form again with its weights multiplied by 1e-9 and expects the scaled element arrays.                                 *)
+ScaleF(k, f) == [n \in 1..Len(f) |-> [f[n] EXCEPT !.k = Mul(k, f[n].k)]]
+Homogeneous == \A k \in {Two, Half} : \A a, i, b, j \in 1..fm.dim : Tensor(fm.dim, ScaleF(k, fm.form))[a][i][b][j] = Mul(k, fm.tensor[a][i][b][j])
 EmitOK == Emit => PrintT(<<"FORM", ToJson(fm)>>)
 =============================================================================
